@@ -1261,3 +1261,321 @@ def replay_do_for(inputs, clause):
         if acts[: len(want)] != want:
             return f"`do Sub() for {n} {unit}` (timestep {ts or 1}): the agent's actions were {acts}, documented: {want} (Sub acts in exactly {k} steps)"
     return None
+
+
+# ====================================================================================================
+# DynamicScenario._invokeInner: stepping of sub-scenarios invoked with `do` from a compose block
+#
+# Oracle: docs/reference/dynamic_scenarios.rst step 1d ("run [the compose block] for one time step, i.e. resume it until it or a
+# subscenario it is currently running using `do` executes `wait`"), step 1e ("the scenario returns to its parent scenario"),
+# statements.rst `do` ("Run one or more sub-behaviors or sub-scenarios in parallel.  This statement does not return until all
+# invoked sub-behaviors/scenarios have completed") and `terminate simulation` ("Immediately end the entire simulation").
+# In trace terms, with time counted in waits of the `do` statement since it was invoked:
+#   * every listed sub-scenario is prepared once, then started once, and all are started before any of them is stepped;
+#   * a sub-scenario takes its first step in the time step of the invocation (time 0), and exactly one step in every later
+#     time step while it runs, in the order listed;
+#   * a sub-scenario that has ended (by itself, or stopped by somebody else while the actions were executed) is never stepped again;
+#   * the statement waits exactly once per time step while some sub-scenario runs and returns, WITHOUT waiting, in the time
+#     step in which the last one ends -- so the caller resumes in that same step, the one after the last wait;
+#   * `terminate simulation` inside a sub-scenario is handed to the caller at once;
+#   * the scenario lists as its running sub-scenarios exactly those still running (this is what makes their monitors,
+#     records and requirements be handled while -- and only while -- they run).
+
+II_MAX_STEPS = 3  # a scripted sub-scenario ends in its 3rd step at the latest
+
+
+def invoke_inner_rules(ev, n):
+    """ev: ("prepare",k) ("start",k) ("step",k,outcome) ("wait",value,listed) ("stopped externally",k) ("return",listed) ("typeerror",)
+    -> {rule: None | first violation}"""
+    out = dict.fromkeys(
+        [
+            "every_sub_scenario_prepared_then_started_exactly_once_and_all_started_before_any_step",
+            "first_step_in_the_time_step_of_the_invocation_then_one_step_per_time_step_in_the_listed_order",
+            "an_ended_or_stopped_sub_scenario_is_never_stepped_again",
+            "waits_once_per_time_step_while_a_sub_scenario_runs_and_returns_without_waiting_when_the_last_one_ends",
+            "terminate_simulation_of_a_sub_scenario_is_handed_to_the_caller_at_once",
+            "running_sub_scenarios_listed_exactly_while_they_run",
+        ]
+    )
+
+    def fail(rule, text):
+        if out[rule] is None:
+            out[rule] = text
+
+    i = 0
+    # ---- start-up
+    head = []
+    while i < len(ev) and ev[i][0] in ("prepare", "start"):
+        head.append(ev[i][:2])
+        i += 1
+    for k in range(n):
+        ps = [j for j, e in enumerate(head) if e == ("prepare", k)]
+        ss = [j for j, e in enumerate(head) if e == ("start", k)]
+        if len(ps) != 1 or len(ss) != 1 or ps[0] > ss[0]:
+            fail("every_sub_scenario_prepared_then_started_exactly_once_and_all_started_before_any_step", f"sub-scenario {k}: start-up events {head}")
+    if any(e[0] in ("prepare", "start") for e in ev[i:]):
+        fail("every_sub_scenario_prepared_then_started_exactly_once_and_all_started_before_any_step", f"a sub-scenario is prepared/started after stepping began: {[e[:2] for e in ev]}")
+    alive = list(range(n))
+    t = 0
+    while i < len(ev):
+        seg = []
+        while i < len(ev) and ev[i][0] == "step":
+            seg.append(ev[i])
+            i += 1
+        ended_sim = None
+        stepped = [e[1] for e in seg]
+        for e in seg:
+            if e[1] not in alive:
+                fail("an_ended_or_stopped_sub_scenario_is_never_stepped_again", f"sub-scenario {e[1]} stepped at time {t} after it had ended")
+        expect = list(alive)
+        for j, e in enumerate(seg):
+            if e[2] == "terminate simulation":
+                ended_sim = e[1]
+                expect = expect[: expect.index(e[1]) + 1] if e[1] in expect else expect
+                if j != len(seg) - 1:
+                    fail("terminate_simulation_of_a_sub_scenario_is_handed_to_the_caller_at_once", f"at time {t} sub-scenarios {stepped[j + 1:]} were still stepped after sub-scenario {e[1]} executed `terminate simulation`")
+                break
+        if stepped != expect:
+            fail("first_step_in_the_time_step_of_the_invocation_then_one_step_per_time_step_in_the_listed_order", f"at time {t} (waits since the invocation) the sub-scenarios stepped were {stepped}; running: {expect}")
+        for e in seg:
+            if e[2] != "continues" and e[1] in alive:
+                alive.remove(e[1])
+        nxt = ev[i] if i < len(ev) else None
+        if ended_sim is not None:
+            if nxt is None or nxt[0] != "wait" or nxt[1] != "terminate simulation":
+                fail("terminate_simulation_of_a_sub_scenario_is_handed_to_the_caller_at_once", f"after `terminate simulation` in sub-scenario {ended_sim}: next event {nxt}")
+            break
+        if nxt is None:
+            break
+        if not alive:
+            if nxt[0] != "return":
+                fail("waits_once_per_time_step_while_a_sub_scenario_runs_and_returns_without_waiting_when_the_last_one_ends", f"at time {t} the last sub-scenario ended but the statement did {nxt[:2]} instead of returning in the same time step")
+                break
+            if list(nxt[1]) != []:
+                fail("running_sub_scenarios_listed_exactly_while_they_run", f"after the statement returned the scenario still lists {list(nxt[1])} as running sub-scenarios")
+            i += 1
+            if i < len(ev):
+                fail("waits_once_per_time_step_while_a_sub_scenario_runs_and_returns_without_waiting_when_the_last_one_ends", f"events after the return: {ev[i:]}")
+            break
+        if nxt[0] != "wait" or nxt[1] is not None:
+            fail("waits_once_per_time_step_while_a_sub_scenario_runs_and_returns_without_waiting_when_the_last_one_ends", f"at time {t} sub-scenarios {alive} are still running but the statement did {nxt[:2]} instead of waiting one step")
+            break
+        if list(nxt[2]) != alive:
+            fail("running_sub_scenarios_listed_exactly_while_they_run", f"while waiting at time {t} the scenario lists {list(nxt[2])} as its running sub-scenarios; running: {alive}")
+        i += 1
+        t += 1
+        while i < len(ev) and ev[i][0] == "stopped externally":
+            if ev[i][1] in alive:
+                alive.remove(ev[i][1])
+            i += 1
+    return out
+
+
+def register_invoke_inner_scenarios(reg):
+    tgt = f"{DS}:DynamicScenario._invokeInner"
+    name = "scenarios.DynamicScenario._invokeInner"
+
+    def setup(I, env):
+        eng = I.eng
+        log = eng.events
+        n = 1 + MD.pick(I, 2, "number of sub-scenarios invoked in parallel (1-2)")
+        bad = MD.pick(I, 2, "all listed items are scenarios / the last one is not") == 1
+        self = PObj(repo_class(f"{DS}:DynamicScenario"), tag="invoking scenario")
+        self.fields.update(_subScenarios=PList(), _isRunning=True)
+        subs = []
+        for k in range(n):
+            sub = PObj(repo_class(f"{DS}:DynamicScenario"), tag=f"sub-scenario {k}")
+            sub.k = k
+            sub.steps = 0
+            sub.fields.update(_isRunning=False)
+
+            def prepare(delayPreconditionCheck=False, sub=sub):
+                log.append(("prepare", sub.k))
+
+            def start(sub=sub):
+                log.append(("start", sub.k))
+                sub.fields["_isRunning"] = True
+
+            def step(sub=sub):
+                j = sub.steps
+                sub.steps += 1
+                if j + 1 >= II_MAX_STEPS:
+                    what = 1 + MD.pick(I, 2, f"sub-scenario {sub.k}, step {j} (bound): finishes / terminate simulation")
+                else:
+                    what = MD.pick(I, 3, f"sub-scenario {sub.k}, step {j}: continues / finishes / terminate simulation")
+                log.append(("step", sub.k, ["continues", "finishes", "terminate simulation"][what]))
+                if what == 0:
+                    return None
+                sub.fields["_isRunning"] = False
+                if what == 1:
+                    return "finished compose block"
+                a = PObj(repo_class(f"{ACT}:_EndSimulationAction"), tag="terminate simulation")
+                a.fields["line"] = 1
+                return a
+
+            sub.fields.update(_prepare=BuiltinFn("_prepare", prepare), _start=BuiltinFn("_start", start), _step=BuiltinFn("_step", step))
+            subs.append(sub)
+        items = list(subs)
+        if bad:
+            items.append(PObj("Behavior", tag="a behavior, not a scenario"))
+        env.vars.update(self=self, agent=None, subs=tuple(items), _subs=subs, _bad=bad, _n=n)
+
+    def post(I, env, outcome):
+        eng = I.eng
+        if outcome[0] != "return":
+            eng.check(f"{name}#ensures.generator_created", False)
+            return
+        gen = outcome[1]
+        log = eng.events
+        self, subs, bad, n = env.vars["self"], env.vars["_subs"], env.vars["_bad"], env.vars["_n"]
+        stops = {"done": False}
+
+        def listed():
+            return [getattr(x, "k", "?") for x in self.fields["_subScenarios"].items]
+
+        def on_yield(I_, v):
+            if isinstance(v, PObj) and getattr(v, "tag", "") == "terminate simulation":
+                log.append(("wait", "terminate simulation", listed()))
+                # the simulation ends: the suspended generator is never resumed but closed
+                raise SymRaise(PExc(GeneratorExit, ("generator closed: simulation ended",)))
+            log.append(("wait", v, listed()))
+            if not stops["done"] and subs[0].fields["_isRunning"]:
+                stops["done"] = True
+                if MD.pick(I, 2, "sub-scenario 0 stopped by a `terminate` of one of its agents while the actions of this step are executed?") == 1:
+                    subs[0].fields["_isRunning"] = False
+                    log.append(("stopped externally", 0))
+            return None
+
+        prev = I.registry.yield_hook
+        I.registry.yield_hook = on_yield
+        ended = ("return", None)
+        try:
+            I.iterate(gen)
+        except SymRaise as sr:
+            ended = ("raise", sr.exc)
+        finally:
+            I.registry.yield_hook = prev
+        en = getattr(ended[1].cls, "name", getattr(ended[1].cls, "__name__", "?")) if ended[0] == "raise" else None
+        eng.input_syms.append(("script", C.Const(None), repr([(nn[1], nn[2]) for nn in eng.path_notes if isinstance(nn, tuple) and len(nn) == 3 and nn[0] == "choice"])))
+        if bad:
+            # `do` with something that is not a scenario: an error, and no sub-scenario has been stepped
+            eng.check(f"{name}#raises.TypeError_for_an_item_that_is_not_a_scenario_before_anything_is_stepped", en == "TypeError" and not any(e[0] in ("step", "wait") for e in log))
+            return
+        if ended[0] == "return":
+            log.append(("return", listed()))
+        else:
+            eng.check(f"{name}#raises.nothing_of_its_own", en == "GeneratorExit", detail=repr(ended[1]))
+        rules = invoke_inner_rules(list(log), n)
+        for rule, why in rules.items():
+            eng.check(f"{name}#ensures.{rule}", why is None, detail=f"{why}; trace: {[e[:3] for e in log]}")
+
+    reg.add(
+        C.Contract(
+            tgt,
+            params=dict(self=C.Const(None), agent=C.Const(None), subs=C.Const(None)),
+            setup=setup,
+            post=post,
+            replay=replay_invoke_inner_scenarios,
+            bounded=True,
+            note=f"bounded: 1-2 sub-scenarios invoked in parallel, each ends in its {II_MAX_STEPS}rd step at the latest (every script of continues / finishes / terminate simulation); "
+            "sub-scenario 0 may be stopped from outside during the first wait; generator close() modelled at the suspension point",
+            properties=("C12",),
+        )
+    )
+
+
+_register_before_invoke_inner = register
+
+
+def register(reg):  # noqa: F811
+    _register_before_invoke_inner(reg)
+    register_invoke_inner_scenarios(reg)
+
+
+INVOKE_INNER_PROGRAM = """
+import builtins
+log = builtins._pyvc_log
+def T():
+    import scenic.syntax.veneer as v
+    return v.currentSimulation.currentTime
+behavior Stopper():
+    wait
+    terminate
+scenario Sub(name, n):
+    compose:
+        for i in range(n):
+            log.append((name, T()))
+            wait
+        log.append((name + "-end", T()))
+scenario Stopped():
+    setup:
+        other = new Object at (10, 10), with behavior Stopper
+    compose:
+        while True:
+            log.append(("stopped", T()))
+            wait
+scenario Ender():
+    compose:
+        log.append(("ender", T()))
+        wait
+        log.append(("ender", T()))
+        terminate simulation
+scenario Main():
+    setup:
+        ego = new Object
+    compose:
+        log.append(("main", T()))
+        wait
+        do Sub("a", 2), Sub("b", 1)
+        log.append(("back", T()))
+        wait
+        do Sub("c", 0)
+        log.append(("back2", T()))
+        wait
+        do Stopped()
+        log.append(("back3", T()))
+        wait
+        do Ender(), Sub("d", 5)
+        log.append(("never", T()))
+"""
+
+
+def replay_invoke_inner_scenarios(inputs, clause):
+    """Real nested scenarios: when each sub-scenario takes its steps and when the invoking compose block resumes."""
+    import builtins
+
+    import scenic
+    from scenic.core.simulators import DummySimulator
+
+    log = []
+    builtins._pyvc_log = log
+    try:
+        sc = scenic.scenarioFromString(INVOKE_INNER_PROGRAM, scenario="Main", mode2D=True)
+        scene, _ = sc.generate(maxIterations=5)
+        del log[:]
+        try:
+            sim = DummySimulator().simulate(scene, maxSteps=20, maxIterations=1)
+        except Exception as e:
+            return f"nested scenarios invoked with `do`: {type(e).__name__}: {e}"
+    finally:
+        del builtins._pyvc_log
+    if sim is None:
+        return "nested scenarios invoked with `do`: the simulation was rejected"
+    want = [
+        ("main", 0),
+        # do Sub("a", 2), Sub("b", 1) invoked in step 1: both take their first step in step 1, in the listed order
+        ("a", 1), ("b", 1),
+        ("a", 2), ("b-end", 2),
+        ("a-end", 3), ("back", 3),  # the caller resumes in the step in which the last sub-scenario ends (no extra wait)
+        ("c-end", 4), ("back2", 4),  # a sub-scenario that ends at once costs no time step
+        ("stopped", 5), ("stopped", 6),  # its agent executes `terminate` during step 6: not stepped in step 7, caller resumes
+        ("back3", 7),
+        ("ender", 8), ("d", 8),
+        ("ender", 9),  # `terminate simulation`: the simulation ends at once, Sub("d") is not stepped in step 9
+    ]
+    if log != want:
+        k = next((i for i, (a, b) in enumerate(zip(log, want)) if a != b), min(len(log), len(want)))
+        return f"nested scenarios invoked with `do`: event {k} is {log[k] if k < len(log) else 'missing'}, documented {want[k] if k < len(want) else 'nothing more'} (name, time step); full trace {log}"
+    if sim.currentTime != 9 or sim.result.terminationType.name != "scenarioComplete" and "terminat" not in str(sim.result.terminationReason):
+        return f"`terminate simulation` in a sub-scenario at step 9: simulation ended at step {sim.currentTime} ({sim.result.terminationType.name}: {sim.result.terminationReason})"
+    return None
